@@ -24,6 +24,22 @@ pub enum Family {
     V4,
     V6,
     Dual,
+    /// v6-only, and the address is IPv4-mapped (::ffff:a.b.c.d)
+    V6Mapped,
+    /// dual, and the v6 address is IPv4-mapped
+    DualMapped,
+}
+
+impl Family {
+    pub fn has_v4(self) -> bool {
+        matches!(self, Family::V4 | Family::Dual | Family::DualMapped)
+    }
+    pub fn has_v6(self) -> bool {
+        !matches!(self, Family::V4)
+    }
+    pub fn mapped(self) -> bool {
+        matches!(self, Family::V6Mapped | Family::DualMapped)
+    }
 }
 
 #[derive(Debug, Clone)]
@@ -81,8 +97,12 @@ pub fn sibling_apex() -> DomainName {
 fn v4(level: usize, k: usize) -> Ipv4Addr {
     Ipv4Addr::new(10, 0, level as u8, (k + 1) as u8)
 }
-fn v6(level: usize, k: usize) -> Ipv6Addr {
-    Ipv6Addr::new(0xfd00, 0, 0, 0, 0, 0, level as u16, (k + 1) as u16)
+fn v6(fam: Family, level: usize, k: usize) -> Ipv6Addr {
+    if fam.mapped() {
+        Ipv4Addr::new(10, 64, level as u8, (k + 1) as u8).to_ipv6_mapped()
+    } else {
+        Ipv6Addr::new(0xfd00, 0, 0, 0, 0, 0, level as u16, (k + 1) as u16)
+    }
 }
 
 fn soa(apex: &DomainName, minimum: u32) -> SOA {
@@ -130,22 +150,22 @@ pub fn ns_hosts(p: &GenParams, level: usize) -> Vec<DomainName> {
 
 fn addr_recs(owner: &DomainName, fam: Family, level: usize, k: usize, ttl: u32) -> Vec<FlatRec> {
     let mut v = Vec::new();
-    if fam != Family::V6 {
+    if fam.has_v4() {
         v.push(rec(owner, RecordTypeWithData::A { address: v4(level, k) }, ttl));
     }
-    if fam != Family::V4 {
-        v.push(rec(owner, RecordTypeWithData::AAAA { address: v6(level, k) }, ttl));
+    if fam.has_v6() {
+        v.push(rec(owner, RecordTypeWithData::AAAA { address: v6(fam, level, k) }, ttl));
     }
     v
 }
 
 fn addrs(fam: Family, level: usize, k: usize) -> Vec<IpAddr> {
     let mut v = Vec::new();
-    if fam != Family::V6 {
+    if fam.has_v4() {
         v.push(IpAddr::V4(v4(level, k)));
     }
-    if fam != Family::V4 {
-        v.push(IpAddr::V6(v6(level, k)));
+    if fam.has_v6() {
+        v.push(IpAddr::V6(v6(fam, level, k)));
     }
     v
 }
